@@ -400,7 +400,25 @@ class Stmts(FnCtx):
     def s_CXXThrowExpr(self, n):
         ks = kids(n)
         what = '0'
-        return ['X_throw("%s"); /* exception: ghost flag + return */' % sanitize(qt(ks[0]) if ks else 'rethrow')] + \
+        call = 'X_throw("%s");' % sanitize(qt(ks[0]) if ks else 'rethrow')
+        if ks and self.lw.cfg.get('throw_codes'):
+            # @throw_codes: an exception constructed with a trailing integral / enumeration argument (tulz::Exception(message,
+            # type)) keeps that argument, so that WHICH error is reported stays visible; the message is dropped
+            def find_ctor(x):
+                if x.get('kind') in ('CXXConstructExpr', 'CXXTemporaryObjectExpr'):
+                    return x
+                for c in kids(x):
+                    r = find_ctor(c)
+                    if r is not None:
+                        return r
+                return None
+            ce = find_ctor(ks[0])
+            args = [a for a in kids(ce)] if ce is not None else []
+            if len(args) >= 2 and args[-1].get('kind') != 'CXXDefaultArgExpr':
+                lt = self.lw.ty(args[-1])
+                if lt.kind in ('builtin', 'enum') or (lt.kind == 'builtin' and lt.name in ('int', 'unsigned int', 'long')):
+                    call = 'X_throw_code("%s", (int)(%s));' % (sanitize(qt(ks[0])), self.ex(args[-1]))
+        return [call + ' /* exception: ghost flag + return */'] + \
             self.dtors_upto(('func',)) + (['return;'] if not self.ret_scalar() else ['return (%s)0;' % self.lw.ctype(self.ret_t)] if not self.ret_t.is_ref() else ['return 0;'])
 
     def ret_scalar(self):
